@@ -24,14 +24,16 @@ LEVEL = ("(a) validity: abstract interpretation of the naming pipeline over sets
          "for ALL strings (exhaustive over 0x110000 code points, not sampled); (b) every field annotated "
          "PythonIdentifier/ClassName only ever receives constructor results (interprocedural label analysis); "
          "(b') every printed expression standing at an identifier-required position of a generated line (decided from the generated "
-         "text around it) is reached only by text labelled IDENT / CONST / ENUM / WORD / NUM; "
+         "text around it) is reached only by text labelled IDENT / CONST / ENUM / WORD / NUM, and cannot be a keyword (affix no keyword "
+         "has, or renamed by the constructors and since passed only through filters E6 shows keyword-free); "
          "(c) uniqueness scopes: keyed registry stores dominated by membership tests leading to diagnostics, conflict "
          "resolution followed by re-checks (CFG dominance / path rules); (d) the constructor mode that R09.1 shows to let delimiters "
          "through is traced over the call graph (forwarding parameters, defaults, locals) to every site that can select it: each is "
          "preceded on every path by a collision test of derived names; (e) the operation's parameter pass reads every parameter "
          "collection of the operation (fields by declared element type, and those whose names the templates print); (f) where those "
          "collections are filled, one element per item of an iteration, a decision that looks at the elements already collected and can "
-         "end the iteration without adding the item reads everything that determines the item's place and name.")
+         "end the iteration without adding the item reads everything that determines the item's place and name; (g) the directory "
+         "that is the importable package is, for every outcome of the constructor's tests, the user's output_path or named by package_name.")
 
 
 def run(rep: Report, ctx: Any) -> str:
@@ -49,7 +51,13 @@ def run(rep: Report, ctx: Any) -> str:
     rep.rule("R09.2", "fields annotated PythonIdentifier / ClassName only ever receive results of those constructors; every template "
                       "hole that prints such a field carries constructor results only; every identifier-required position of the "
                       "generated code (assignment / annotation target, keyword, parameter, attribute, def / class / import / for name) "
-                      "receives identifier material only, whatever expression the template prints there")
+                      "receives identifier material only, whatever expression the template prints there; and the token printed "
+                      "there is not a keyword (`...::not-keyword`): the template writes an affix around the expression that no keyword "
+                      "has, or the expression - read through `set` variables, macro arguments at every call of a macro of that name, "
+                      "defaults, conditionals, literal affixes of a concatenation - is a constructor result / repository constant / "
+                      "number that has passed only through filters whose result E6 shows never to spell a keyword (upper) or that "
+                      "hand an identifier on unchanged (string, safe, trim); text of the word helpers (snake_case & co., which do not "
+                      "rename reserved words) is admitted bare only as a key of the enum member table, whose stores R09.1 decides")
     rep.assumptions += [
         "config.field_prefix matches [A-Za-z][A-Za-z0-9_]* and prefix+name does not spell a keyword (the user's own configuration)",
         "CPython's str.isidentifier / re \\w / case mappings tabulated over all code points are the definition of validity",
